@@ -9,7 +9,12 @@ package main
 // three do to the subscriber's brand-new context, every session whose creation was acknowledged (201 with a reference) must be
 // there afterwards: its update is answered 200 and its release 204.
 //
+// A recharge of the same never-seen subscriber (rating group 1) is in flight with them: answered 404 it came before every create
+// (nobody to notify); answered 204 it came after an accepted create, both of which register a notification address - the
+// consumer must then have been notified.
+//
 // observation: first rounds=<n> acked=<sessions acknowledged> unusable=<acknowledged sessions whose update / release failed>[:<first: update/release status>]
+//              recharged=<recharges answered 204> unnotified=<of those, how many reached no notification address>
 
 import (
 	"encoding/json"
@@ -27,6 +32,7 @@ func runConcFirst(t []string) string {
 	}
 	runChf("chf reset", []string{"reset"})
 	acked, unusable, first := 0, 0, ""
+	recharged, unnotified := 0, 0
 	for r := 0; r < rounds; r++ {
 		supi := saltSupi(fmt.Sprintf("%s%0*d", prefix, 20-len(prefix), r)) // (five digits from the process id: see conc_hammer.go)
 		chfSupis[supi] = true
@@ -34,13 +40,21 @@ func runConcFirst(t []string) string {
 			q := onlineUpdate(supi, "", 1, 0)
 			q.MultipleUnitUsage = nil
 			q.NfConsumerIdentification.NFName = nf
+			q.NotifyUri = sinkURL + "/n/" + supi
 			if bad {
 				q.NfConsumerIdentification.NFPLMNID = &models.PlmnId{Mcc: "20", Mnc: "93"}
 			}
 			b, _ := json.Marshal(q)
 			return b
 		}
-		bodies := [][]byte{body("smf", false), body("nef", false), body("smf", true)}
+		// even rounds: two accepted creates and a refused one; odd rounds: two accepted creates and a recharge (no refused create:
+		// a create refused by OpenCDR leaves an empty context behind, after which a recharge is answered 204 with nobody to notify
+		// in a serial order too)
+		bodies := [][]byte{body("smf", false), body("nef", false)}
+		withRecharge := r%2 == 1
+		if !withRecharge {
+			bodies = append(bodies, body("smf", true))
+		}
 		refs := make([]string, len(bodies))
 		start := make(chan struct{})
 		var wg sync.WaitGroup
@@ -55,8 +69,29 @@ func runConcFirst(t []string) string {
 				}
 			}(i)
 		}
+		sinkMu.Lock()
+		nBefore := len(sinkGot)
+		sinkMu.Unlock()
+		rechargeCode := 0
+		if withRecharge {
+			wg.Add(1)
+			go func() {
+				defer wg.Done()
+				<-start
+				rechargeCode = doHTTP("PUT", ccPrefix+"/recharging/"+escapePath(supi+"_1"), nil).Code
+			}()
+		}
 		close(start)
 		wg.Wait()
+		if rechargeCode == 204 {
+			recharged++
+			sinkMu.Lock()
+			got := len(sinkGot) - nBefore
+			sinkMu.Unlock()
+			if got == 0 {
+				unnotified++
+			}
+		}
 		for i, ref := range refs {
 			if ref == "" {
 				continue
@@ -76,5 +111,5 @@ func runConcFirst(t []string) string {
 	if first != "" {
 		s += ":" + first
 	}
-	return s
+	return s + fmt.Sprintf(" recharged=%d unnotified=%d", recharged, unnotified)
 }
